@@ -41,7 +41,7 @@ def main():
     out = os.path.join(HERE, 'seeded', name)
     os.makedirs(out, exist_ok=True)
     for f in ('patch.diff', 'demo.py', 'notes.md'):
-        if os.path.exists(os.path.join(src, f)):
+        if os.path.exists(os.path.join(src, f)) and os.path.abspath(src) != os.path.abspath(out):
             shutil.copy(os.path.join(src, f), os.path.join(out, f))
     wt = '/tmp/seedwt_%s_%d' % (name, os.getpid())
     sh(['git', '-C', '/repo', 'worktree', 'add', '-q', '--detach', wt, 'HEAD'])
